@@ -97,7 +97,8 @@ def cur():
 
 
 class Sched:
-    def __init__(self, prefix=(), bytes_capacity=None, reduce=True):
+    def __init__(self, prefix=(), bytes_capacity=None, reduce=True, policy="lowest"):
+        self.policy = policy  # canonical order of the enabled processes: "lowest" (running first, then ids) or "fair"
         self.procs = []
         self.prefix = list(prefix)
         self.points = []  # (enabled pids in canonical order, chosen index, state key)
@@ -163,7 +164,11 @@ class Sched:
             if me is not None and not me.finished:
                 me.go.acquire()
             return
-        en.sort(key=lambda p: (0 if p is me else 1, p.pid))
+        if self.policy == "fair":
+            # least recently scheduled first: every worker gets its turn (used for single runs outside the explorer)
+            en.sort(key=lambda p: (getattr(p, "last_run", -1), p.pid))
+        else:
+            en.sort(key=lambda p: (0 if p is me else 1, p.pid))
         if len(self.trace) >= HORIZON:
             self.horizon_hit = True
             self._end()
@@ -186,6 +191,7 @@ class Sched:
                 c = 0
             self.points.append((tuple(p.pid for p in en), c, self.key()))
         nxt = en[c]
+        nxt.last_run = len(self.trace)
         self.trace.append((nxt.name, nxt.pending[0]))
         if nxt is me:
             return
@@ -378,12 +384,12 @@ class Execution:
     __slots__ = ("sched", "result", "main_exc", "leaked")
 
 
-def run(main_fn, prefix=(), bytes_capacity=None, reduce=True):
+def run(main_fn, prefix=(), bytes_capacity=None, reduce=True, policy="lowest"):
     """Run main_fn() as the virtual main process with cutadapt.runners bound to the virtual layer.
     Returns (sched, value returned by main_fn or None, exception raised by main_fn or None)."""
     import cutadapt.runners as R
 
-    sched = Sched(prefix, bytes_capacity=bytes_capacity, reduce=reduce)
+    sched = Sched(prefix, bytes_capacity=bytes_capacity, reduce=reduce, policy=policy)
     _CURRENT[0] = sched
     handles = {}
 
